@@ -29,7 +29,7 @@ Proof. exact encode_yaml_spec. Qed.
 (* decoding each of them yields v again (view soundness: the library's string reading of the
    encoded document is the emitted name — measured for every round trip by the farm) *)
 Theorem C05_roundtrip_json : forall d o t, wf_defn d -> gen d o = Built t ->
-  forall v jv, In v (values_spec (d_consts d)) ->
+  forall v jv, In v (values_spec (d_consts d)) -> jv_null jv = false ->
   jv_string jv = Some (sem_string t v) -> decode_json t jv = Some v.
 Proof. exact roundtrip_json. Qed.
 Theorem C05_roundtrip_text : forall d o t, wf_defn d -> gen d o = Built t ->
@@ -55,6 +55,16 @@ Theorem C05_reject_yaml : forall d o t yv, gen d o = Built t ->
   (forall x, reading (Some (yv_value yv)) (yv_u64 yv) (yv_i64 yv) (yv_native yv) t x -> rejectable d o t x) ->
   decode_yaml t yv = None.
 Proof. exact reject_yaml_readings. Qed.
+
+(* the literal null holds neither a name nor a trait value: rejected outright.  Before fix
+   C05-json-null-rejected json.Unmarshal's no-op readings "" / 0 of null were tried: for P0/P1/P2 with the
+   parsable trait Code = 0/7/9, null decoded to P0 *)
+Theorem C05_reject_json_null : forall t jv, jv_null jv = true -> decode_json t jv = None.
+Proof. exact decode_json_null. Qed.
+Theorem C05_reject_json_null_orig_refuted :
+  exists t, gen yw_defn yw_opts = Built t
+            /\ decode_json_nullok t null_view = Some 0 /\ decode_json t null_view = None.
+Proof. exact decode_null_refuted. Qed.
 
 (* integer readings always fit the 64-bit trait kinds; for narrower trait types the decoders check
    that the conversion is lossless before calling Parse<T> (reading: conv_int … z = z) *)
@@ -99,6 +109,8 @@ Print Assumptions C05_roundtrip_yaml.
 Print Assumptions C05_reject_json.
 Print Assumptions C05_reject_text.
 Print Assumptions C05_reject_yaml.
+Print Assumptions C05_reject_json_null.
+Print Assumptions C05_reject_json_null_orig_refuted.
 Print Assumptions C05_no_narrowing_64.
 Print Assumptions C05_reject_narrow_norc_refuted.
 Print Assumptions C05_reject_yaml_orig_refuted.
